@@ -1015,15 +1015,24 @@ static std::string normVar(std::string v) {
   while (!v.empty() && (isdigit(static_cast<unsigned char>(v.back())) || v.back() == '_')) v.pop_back();
   return v;
 }
-// An iteration in which a plastic flow changes status: the convergence checks switch the flow on or off AFTER the residual
-// and the jacobian were evaluated, and the comparison that follows differentiates the new system.  It is recognised by
-// the row of the flow equation: df p / dd p is the identity entry (1) in exactly one of the two jacobians.
+// An iteration in which a mechanism changes status (a plastic flow switched on or off, a DDIF2 crack opening or closing):
+// the convergence checks change the status AFTER the residual and the jacobian were evaluated, and the comparison that
+// follows differentiates the new system.  It is recognised by the diagonal entry of the equation of a scalar unknown
+// (df p / dd p, df ef(i) / dd ef(i)): it is exactly 1 (the equation is "increment = 0") in one of the two jacobians only.
 static bool statusChange(const std::vector<Report>& g) {
   for (const auto& rp : g) {
     const auto sep = rp.name.find("_dd");
-    if (sep == std::string::npos) continue;
-    if (normVar(rp.name.substr(2, sep - 2)) != "p" || normVar(rp.name.substr(sep + 3)) != "p") continue;
-    if (rp.name.substr(2, sep - 2) != rp.name.substr(sep + 3) || rp.a.size() != 1) continue;
+    if (sep == std::string::npos || rp.a.size() != 1) continue;
+    std::string X = rp.name.substr(2, sep - 2), Y = rp.name.substr(sep + 3);
+    // array unknowns: dfX_ddX(i,i)
+    const auto par = Y.find('(');
+    if (par != std::string::npos) {
+      const std::string idx = Y.substr(par);
+      Y = Y.substr(0, par);
+      const auto comma = idx.find(',');
+      if (comma == std::string::npos || idx.substr(1, comma - 1) != idx.substr(comma + 1, idx.size() - comma - 2)) continue;
+    }
+    if (X != Y) continue;
     const bool ia = rp.a[0] == 1., in = std::fabs(rp.n[0] - 1.) <= 1e-6;
     if (ia != in) return true;
   }
@@ -1079,7 +1088,10 @@ static void jacobianCase(void* lib, const Json& c, Json& r) {
   long long steps_ok = 0, steps = 0, unparsed = 0, flips = 0, firsts = 0, judged_steps = 0;
   bool active = false;
   Json perrun = Json::array();
+  std::vector<std::vector<double>> step_sig, step_isv;   // results of the steps of the last run
   for (const auto& pe : c["njeps"].a) {
+    step_sig.clear();
+    step_isv.clear();
     if (!su.b.setpar("numerical_jacobian_epsilon", ratd(pe))) throw std::runtime_error("can't set numerical_jacobian_epsilon");
     std::vector<double> eto = su.eto0, sig = su.sig0, isv = su.isv0;
     std::map<std::string, BlockStat> stats;
@@ -1101,6 +1113,8 @@ static void jacobianCase(void* lib, const Json& c, Json& r) {
       for (size_t i = 0; i < sa.p.size(); ++i) active = active || sb.p[i] > sa.p[i];
       sig = q.sig;
       isv = q.isv;
+      step_sig.push_back(sig);
+      step_isv.push_back(isv);
     }
     steps_ok = std::max(steps_ok, ok);
     steps = tot;
@@ -1123,6 +1137,29 @@ static void jacobianCase(void* lib, const Json& c, Json& r) {
         nbad[kv.first] = 0;
       }
     perrun.push(pr);
+  }
+  // cross-check: the same configuration generated with a numerically computed jacobian (no analytical block at all)
+  // must return the same stresses and internal state variables along the path
+  if (has(c, "twin")) {
+    Json c2 = c;
+    c2.set("beh", c["twin"]);
+    Setup s2 = setup(lib, c2);
+    std::vector<double> eto = s2.eto0, sig = s2.sig0, isv = s2.isv0;
+    ld w = 0;
+    long long compared = 0;
+    for (const auto& st : c["path"].a) {
+      std::vector<double> de = toTfel(st["de"], sden, h);
+      if (h.pstress) de[h.axial] = 0;
+      const auto q = call(s2.b, s2.mp, eto, de, sig, isv, s2.esv0, s2.esv1, ratd(st["dt"]), 0.);
+      if (q.ret < 0 || q.threw || static_cast<size_t>(compared) >= step_sig.size()) break;
+      for (int i = 0; i < h.ns; ++i) w = std::max(w, std::fabs(static_cast<ld>(q.sig[i]) - step_sig[compared][i]) / su.law.young);
+      for (size_t i = 0; i < q.isv.size() && i < step_isv[compared].size(); ++i) w = std::max(w, std::fabs(static_cast<ld>(q.isv[i]) - step_isv[compared][i]));
+      ++compared;
+      for (int i = 0; i < h.ns; ++i) eto[i] += de[i];
+      sig = q.sig;
+      isv = q.isv;
+    }
+    r.set("twin_steps", Json(compared)).set("twin_cls", Json(e10(w)));
   }
   Json blocks = Json::array();
   for (const auto& kv : best) {
